@@ -406,3 +406,14 @@ def _int2bv8(x):
     if z3.is_app(x) and x.decl().kind() == z3.Z3_OP_BV2INT and x.arg(0).size() == 8:
         return x.arg(0)
     return z3.Int2BV(x, 8)
+
+
+def reverse_each_byte(v, n):
+    """bit order reversed inside every 8-bit group (n is a multiple of 8): item order <-> little-endian byte image"""
+    assert n % 8 == 0
+    if n == 0:
+        return 0
+    parts = []
+    for i in range(n // 8):
+        parts.append((8, reverse(take(v, n, 8 * i, 8), 8)))
+    return cat(parts)[1]
